@@ -2,11 +2,14 @@
 package c17
 
 import (
+	"bufio"
 	"bytes"
 	"fmt"
+	"io"
 	"strings"
 	"testing"
 	"unicode/utf16"
+	"verif/internal/src"
 
 	"github.com/mandykoh/prism/meta/icc"
 	"github.com/mandykoh/prism/meta/jpegmeta"
@@ -54,14 +57,14 @@ type Case struct {
 	Unicode     string `json:"unicode,omitempty"`
 	Script      string `json:"script,omitempty"`
 	ASCIICount0 bool   `json:"ascii_count0,omitempty"`
-	Recs     []Rec  `json:"recs,omitempty"`
-	StrOrder []int  `json:"str_order,omitempty"`
-	Gap      int    `json:"gap"`
-	Order    []int  `json:"order"` // layout order of own-block tags
-	Pad      []int  `json:"pad"`
-	TablePad int    `json:"table_pad"`
-	Trailer  int    `json:"trailer"`
-	Via      string `json:"via"` // "reader", "png", "jpeg"
+	Recs        []Rec  `json:"recs,omitempty"`
+	StrOrder    []int  `json:"str_order,omitempty"`
+	Gap         int    `json:"gap"`
+	Order       []int  `json:"order"` // layout order of own-block tags
+	Pad         []int  `json:"pad"`
+	TablePad    int    `json:"table_pad"`
+	Trailer     int    `json:"trailer"`
+	Via         string `json:"via"` // "reader", "png", "jpeg"
 }
 
 const descSig = 0x64657363
@@ -267,6 +270,24 @@ func check(c Case) (kind, what string) {
 				return
 			}
 			p, err = md.ICCProfile()
+		})
+	case "positioned":
+		// the profile sits somewhere inside a standard-library reader (after container bytes, or after another
+		// profile): reading starts at the reader's current position, wherever that is
+		h := int(ev.Hash(prof) % 997)
+		kind := []string{"bytes.Reader", "strings.Reader", "bytes.Buffer", "bufio.Reader", "io.SectionReader"}[h%5]
+		prefix := []int{1, 36, 128, 4096, len(prof)}[(h/5)%5]
+		pn, msg = ev.Guard(func() {
+			r, _, cleanup := src.Std(kind, prefix, prof, "")
+			defer cleanup()
+			br, ok := r.(interface {
+				io.Reader
+				io.ByteReader
+			})
+			if !ok {
+				br = bufio.NewReader(r)
+			}
+			p, err = icc.NewProfileReader(br).ReadProfile()
 		})
 	default:
 		pn, msg = ev.Guard(func() { p, err = icc.NewProfileReader(bytes.NewReader(prof)).ReadProfile() })
@@ -532,7 +553,7 @@ func gen(rt *rapid.T) Case {
 		}
 		c.Gap = rapid.SampledFrom([]int{0, 0, 2, 4}).Draw(rt, "gap")
 	}
-	c.Via = rapid.SampledFrom([]string{"reader", "reader", "reader", "png", "jpeg"}).Draw(rt, "via")
+	c.Via = rapid.SampledFrom([]string{"reader", "reader", "positioned", "positioned", "png", "jpeg"}).Draw(rt, "via")
 	return c
 }
 
@@ -548,7 +569,7 @@ func TestC17(t *testing.T) {
 		fmt.Println("REPLAY case passed")
 		return
 	}
-	ev.Rule("rapid grammar-built ICC profiles: 0-64 tags with distinct signatures, 'desc' at a random table position or absent, data blocks laid out in table/reverse/random order, blocks shared between tags, 0-3 padding bytes between blocks and after the table, trailer bytes; v2 textDescription (0-2000 printable ASCII; half with different text in the Unicode and ScriptCode parts, the ASCII part sometimes empty) or v4 mluc with 1-40 records (languages incl. 0/1/several 'en'), strings in table/reverse/random order, shared, overlapping (suffix), with gaps; text from ASCII, BMP and surrogate-pair ranges; read through icc.NewProfileReader, or embedded in a PNG (iCCP) / JPEG (2 APP2 chunks) through meta.Data.ICCProfile. non-trivial = distinct case with >= 2 mluc records, a string not immediately after its record, data order != table order, shared or padded blocks, or zero tags")
+	ev.Rule("rapid grammar-built ICC profiles: 0-64 tags with distinct signatures, 'desc' at a random table position or absent, data blocks laid out in table/reverse/random order, blocks shared between tags, 0-3 padding bytes between blocks and after the table, trailer bytes; v2 textDescription (0-2000 printable ASCII; half with different text in the Unicode and ScriptCode parts, the ASCII part sometimes empty) or v4 mluc with 1-40 records (languages incl. 0/1/several 'en'), strings in table/reverse/random order, shared, overlapping (suffix), with gaps; text from ASCII, BMP and surrogate-pair ranges; read through icc.NewProfileReader from offset 0 or from a standard reader positioned after container bytes, or embedded in a PNG (iCCP) / JPEG (2 APP2 chunks) through meta.Data.ICCProfile. non-trivial = distinct case with >= 2 mluc records, a string not immediately after its record, data order != table order, shared or padded blocks, or zero tags")
 	ev.Assume("harness ICC/mluc builder; Description must be a member of the allowed set (any 'en' record, else any record)")
 	// deterministic corner cases first
 	fixed := []Case{
